@@ -110,6 +110,9 @@ fn add_helpers(prog: &mut Program, text: &str) {
             fields: vec![FieldDecl { name: "zf".into(), ty: Ty::Int }, FieldDecl { name: "zg".into(), ty: Ty::Str }],
         });
     }
+    if text.contains("Zqs") && !prog.blobs.iter().any(|b| b.name == "Zqs") {
+        prog.blobs.push(BlobDecl { name: "Zqs".into(), fields: vec![FieldDecl { name: "zf".into(), ty: Ty::Int }] });
+    }
     // `Zqo` has members whose type is the blob `Zqp` declared *after* it (directly and as a type argument)
     if (text.contains("Zqo") || text.contains("Zqd")) && !prog.blobs.iter().any(|b| b.name == "Zqo") {
         // (`Zqo` mentions it only as a type argument, `Zqd` only directly)
